@@ -325,3 +325,37 @@ func BV256(op string, xx, yy *big.Int) *big.Int {
 	}
 	return r.And(r, mask256)
 }
+
+// All / Any: conjunction / disjunction without short-circuit forks.
+func All(bs ...bool) bool {
+	for _, b := range bs {
+		if !b {
+			return false
+		}
+	}
+	return true
+}
+
+func Any(bs ...bool) bool {
+	for _, b := range bs {
+		if b {
+			return true
+		}
+	}
+	return false
+}
+
+// IteBig / IteU64: a value selected by a condition, as a term (no fork).
+func IteBig(c bool, a, b *big.Int) *big.Int {
+	if c {
+		return new(big.Int).Set(a)
+	}
+	return new(big.Int).Set(b)
+}
+
+func IteU64(c bool, a, b uint64) uint64 {
+	if c {
+		return a
+	}
+	return b
+}
